@@ -114,3 +114,11 @@ Print Assumptions configuration_reaches_the_readers.
 Theorem declared_content_length_is_never_consulted : content_length_never_consulted = true.
 Proof. reflexivity. Qed.
 Print Assumptions declared_content_length_is_never_consulted.
+
+(* the decompressed-size limit belongs to each reader (it is an argument of
+   Decompress, which limit_decompressed / decompress_bound take as [max]), not to a
+   compression pool, which an option value shares between all the handlers and
+   clients it is given to *)
+Theorem decompress_limit_belongs_to_the_reader : decompress_limit_is_a_parameter = true.
+Proof. exact Plumbing.decompress_limit_belongs_to_the_reader. Qed.
+Print Assumptions decompress_limit_belongs_to_the_reader.
